@@ -2,6 +2,7 @@ CONSTANTS NP = 4
  NT = 0
  NF = 0
  NA = 3
+ NC = 0
  Light = FALSE
 INIT InitGen
 NEXT EvalGen
